@@ -41,7 +41,7 @@ func fieldPathOf(v ssa.Value) string {
 
 func isEvalCall(m *Model, c *ssa.Call) bool {
 	sc := c.Call.StaticCallee()
-	return sc != nil && sc.Name() == "Eval" && inPkg(sc, "evaluator") && sc.Signature.Recv() != nil
+	return sc != nil && canonFnName(sc) == "Eval" && inPkg(sc, "evaluator") && sc.Signature.Recv() != nil
 }
 
 // evalCallsOn: calls e.Eval(x, env) in fn where x is a load whose field path ends in suffix.
@@ -63,7 +63,7 @@ func evalCallsOn(m *Model, fn *ssa.Function, suffix string) []*ssa.Call {
 
 func staticCalleeNamed(c *ssa.Call, pkg, name string) bool {
 	sc := c.Call.StaticCallee()
-	return sc != nil && sc.Name() == name && inPkg(sc, pkg)
+	return sc != nil && canonFnName(sc) == name && inPkg(sc, pkg)
 }
 
 // truthFactOn: a dominating fact isTruthy(v) == want at block b.
